@@ -249,15 +249,17 @@ def fileMeasSeries (name : String) (f : FileData) : List Nat :=
 def fsMeasSeries (fs : List FileData) (name : String) : List Nat :=
   fs.foldl (fun acc f => sunion acc (fileMeasSeries name f)) []
 
+def fileValSeries (name key value : String) (f : FileData) : List Nat :=
+  ((valElem name key value f).map (·.series)).getD []
+
+/-- `File.TagKeySeriesIDIterator`: the union over the values of the key (a map in the code:
+    each value name is looked up). -/
 def fileKeySeries (name key : String) (f : FileData) : List Nat :=
-  ((keyElem name key f).map (fun tk => tk.values.foldl (fun acc v => sunion acc v.2.series) [])).getD []
+  (fileValues name key f).foldl (fun acc v => sunion acc (fileValSeries name key v f)) []
 
 /-- `FileSet.TagKeySeriesIDIterator`: plain union over files and values. -/
 def fsKeySeries (fs : List FileData) (name key : String) : List Nat :=
   fs.foldl (fun acc f => sunion acc (fileKeySeries name key f)) []
-
-def fileValSeries (name key value : String) (f : FileData) : List Nat :=
-  ((valElem name key value f).map (·.series)).getD []
 
 /-- `FileSet.TagValueSeriesIDIterator`: oldest file first; before a file's set is merged in,
     the tombstones of the file processed just before (the next older one) are removed from
